@@ -8,7 +8,7 @@ path `p0.2.1` (root 0, child 2, child 1).  Child indices are reduced modulo the 
 
 ```
 reset
-new V | del R | set A V
+new V | del R | set A V                      (del leaves the last root alone: skip:last; reset destroys everything)
 pushb A V | pushf A V | ins A I V            push_back / push_front / insert(it, value)
 pushbt A B | pushft A B | inst A I B         the same with std::move(node B)
 popb A K | popf A K | rel A I K              pop_back / pop_front / release(it); K=1: result becomes a new root
@@ -16,7 +16,17 @@ erase A I | eraser A I J | clear A | sort A
 swap A B | cpa A B | mva A B                 swap, copy assignment A = B, move assignment A = std::move(B)
 cpc B | mvc B                                new root by copy / move construction
 pre A | toroot A | depth A | level A | cpos A B | cposk A I | map A | eq A B
+sortp A K                                    sort(Predicate), K = index into `predOf`
+mkl B V                                      new root object(V, child_list(B.children()))
+pushbv A B | pushfv A B | insv A I B | setv A B    the value argument is a reference to the value of node B (may be A or inside A)
+pushbmv A B | pushfmv A B | setmv A B              the same with std::move(B.value()) (the T && overloads)
+front A | back A | kids A | out A            front()/back(), begin/end + rbegin/rend + size + empty, operator<<
+obsall                                       every observer on every node (and on every pair of nodes while the forest is small)
 ```
+
+A line starting with `M` is executed on a second forest whose value type is move-only (`skip:copy` for the copying operations).
+
+A known command whose node operands are well formed but do not all exist answers `skip:nonode`.
 
 Result: `ok a=<path> [b=<path>] [some|none] | <dump>` for mutating operations, `q …` for observers, `skip:<why>` when
 the operation is not applicable (forest full, too big, empty child list, excluded misuse), `bad-op` for malformed lines.
@@ -76,6 +86,35 @@ def sel (F : List PT) (tok : String) : Option Path :=
       if ps.isEmpty then none else ps[n % ps.length]?
     | none => none
 
+/-- a selector token is well formed (`p<nat>(.<nat>)*` or a natural number) -/
+def selWellFormed (tok : String) : Bool :=
+  if tok.startsWith "p" then (parsePath tok).isSome else tok.toNat?.isSome
+
+def unaryCmds : List String :=
+  ["clear", "sort", "cpc", "mvc", "pre", "toroot", "depth", "level", "map", "front", "back", "kids", "out"]
+def valuedCmds : List String := ["set", "pushb", "pushf", "popb", "popf", "erase", "cposk", "sortp", "mkl"]
+def binaryCmds : List String :=
+  ["pushbt", "pushft", "swap", "cpa", "mva", "cpos", "eq", "pushbv", "pushfv", "setv", "pushbmv", "pushfmv", "setmv"]
+def fourACmds : List String := ["ins", "rel", "eraser"]
+def fourABCmds : List String := ["inst", "insv"]
+
+/-- the tokens of a line that select nodes (`none`: not a known node command of that arity) -/
+def nodeOperands (toks : List String) : Option (List String) :=
+  match toks with
+  | [cmd, a] => if unaryCmds.contains cmd then some [a] else none
+  | [cmd, a, b] =>
+    if valuedCmds.contains cmd then some [a] else if binaryCmds.contains cmd then some [a, b] else none
+  | [cmd, a, _, y] =>
+    if fourACmds.contains cmd then some [a] else if fourABCmds.contains cmd then some [a, y] else none
+  | _ => none
+
+/-- a well-formed line whose node operands are all well formed but do not all exist (empty forest, or an explicit path that is
+not there any more) is not applicable: `skip:nonode` -/
+def missingNode (F : List PT) (toks : List String) : Bool :=
+  match nodeOperands toks with
+  | some sels => sels.all selWellFormed && sels.any (fun t => (sel F t).isNone)
+  | none => false
+
 def count (F : List PT) : Nat := sizeL F
 
 def kidsLen (F : List PT) (a : Path) : Nat :=
@@ -83,12 +122,30 @@ def kidsLen (F : List PT) (a : Path) : Nat :=
   | some t => t.kids.length
   | none => 0
 
-def done (s' : St) (head : String) : St × String := (s', head ++ " | " ++ dumpF s'.forest)
+mutual
+/-- the addresses of all objects of a tree / a forest in pre-order -/
+def idsT : PT → List Nat
+  | .node i _ _ ks => i :: idsL ks
+def idsL : List PT → List Nat
+  | [] => []
+  | k :: ks => idsT k ++ idsL ks
+end
+
+/-- which objects survived the operation: for every object of the new forest (pre-order) the pre-order index the same object
+(same address) had before the operation, `n` for an object that did not exist; `=` if nothing moved -/
+def identStr (old new : List PT) : String :=
+  let o := idsL old
+  let n := idsL new
+  if o == n then "=" else
+    ",".intercalate (n.map fun i => match o.findIdx? (· == i) with | some k => toString k | none => "n")
+
+def done (s s' : St) (head : String) : St × String :=
+  (s', head ++ " | " ++ dumpF s'.forest ++ " @" ++ identStr s.forest s'.forest)
 
 def runOp (s : St) (op : Op) (head : String) : St × String :=
   if !op.guard then (s, "skip:misuse") else
   match step s op with
-  | .ok s' => done s' head
+  | .ok s' => done s s' head
   | .error e => (s, "fault:" ++ e.name)
 
 def mapFn (v : Int) : Int := 2 * v + 1
@@ -97,19 +154,73 @@ def excStr {α} (f : α → String) : Except Fault α → String
   | .ok a => f a
   | .error e => "fault:" ++ e.name
 
+def optVal (o : Option PT) : String :=
+  match o with
+  | some c => s!"{c.val}:{c.kids.length}"
+  | none => "none"
+
+def outStr (t : PT) : String := String.ofList (output '>' ';' t)
+
+def kidsStr (t : PT) : String :=
+  s!"fwd={intList ((fwd t).map PT.val)} rev={intList ((rev t).map PT.val)} size={sizeK t} empty={b01 (emptyK t)}"
+
+def cposStr (o : Option Nat) : String := match o with | some i => toString i | none => "none"
+
+/-- every observer on every node; on every ordered pair of nodes while there are at most `pairCap` nodes -/
+def pairCap : Nat := 14
+
+def obsAll (s : St) : String :=
+  let F := s.forest
+  let ps := pathsF 0 F
+  let per := ps.map fun p =>
+    match getF p F with
+    | none => "?"
+    | some t =>
+      s!"{pathStr p} v={t.val} l={excStr toString (level F t)} d={depth t} f={optVal (front t)} b={optVal (back t)} {kidsStr t}" ++
+      s!" pre={excStr intList (preOrder t)} tr={excStr intList (toRoot F t)} out={outStr t}"
+  let pairs :=
+    if ps.length > pairCap then "pairs=skipped" else
+      let cp := ps.flatMap fun p => ps.filterMap fun c =>
+        match getF p F, getF c F with
+        | some P, some C =>
+          match childPosition P C with
+          | some j => some s!"{pathStr p}>{pathStr c}={j}"
+          | none => none
+        | _, _ => none
+      let eqs := ps.map fun p => String.ofList (ps.map fun c =>
+        match getF p F, getF c F with
+        | some P, some C => if eqT P C then '1' else '0'
+        | _, _ => '?')
+      "cpos=" ++ ",".intercalate cp ++ " eq=" ++ ",".intercalate eqs
+  s!"q obsall n={ps.length} | " ++ " | ".intercalate per ++ " || " ++ pairs
+
+/-- the object returned by `pop_front` / `pop_back` / `release`, as the caller sees it before doing anything with it -/
+def retStr (s : St) (a : Path) (pos : Pos) : String :=
+  match getF a s.forest with
+  | none => "?"
+  | some t =>
+    match pos.popIdx t.kids.length with
+    | some (some i) =>
+      match t.kids[i]? with
+      | some c => dumpT none (((moveCtor s.next c).1).setParent none)
+      | none => "?"
+    | _ => "none"
+
 def handle (s : St) (toks : List String) : St × String :=
   let F := s.forest
   let full := F.length ≥ maxRoots
   let big := count F ≥ growCap
+  if missingNode F toks then (s, "skip:nonode") else
   match toks with
   | ["reset"] => (St.init, "ok")
+  | ["obsall"] => (s, obsAll s)
   | ["new", v] =>
     match v.toInt? with
     | some v => if full then (s, "skip:full") else if big then (s, "skip:big") else runOp s (.new v) "ok"
     | none => (s, "bad-op")
   | ["del", r] =>
     match r.toNat? with
-    | some r => if F.isEmpty then (s, "skip:empty") else
+    | some r => if F.isEmpty then (s, "skip:empty") else if F.length == 1 then (s, "skip:last") else
         let r := r % F.length
         runOp s (.del r) s!"ok r={r}"
     | none => (s, "bad-op")
@@ -135,8 +246,8 @@ def handle (s : St) (toks : List String) : St × String :=
         match v.toNat? with
         | some k =>
           let keep := k != 0 && !full
-          let r := if kidsLen F a == 0 then "none" else "some"
-          runOp s (.pop a (if cmd == "popb" then .back else .front) keep) s!"ok a={pa} {r}"
+          let pos : Pos := if cmd == "popb" then .back else .front
+          runOp s (.pop a pos keep) s!"ok a={pa} ret={retStr s a pos}"
         | none => (s, "bad-op")
       else if cmd == "erase" then
         match v.toNat? with
@@ -181,6 +292,29 @@ def handle (s : St) (toks : List String) : St × String :=
             (s, s!"q a={pa} b={pathStr b} eq={b01 e} ne={b01 (!e)}")
           | _, _ => (s, "bad-op")
         | none => (s, "bad-op")
+      else if cmd == "sortp" then
+        match v.toNat? with
+        | some k => let k := k % 4; runOp s (.sortBy a k) s!"ok a={pa} k={k}"
+        | none => (s, "bad-op")
+      else if cmd == "mkl" then
+        match v.toInt?, getF a F with
+        | some v, some t =>
+          if full then (s, "skip:full") else if count F + t.size > copyCap then (s, "skip:big")
+          else runOp s (.mkFrom a v) s!"ok b={pa}"
+        | _, _ => (s, "bad-op")
+      else if cmd == "pushbv" || cmd == "pushfv" || cmd == "setv" || cmd == "pushbmv" || cmd == "pushfmv" || cmd == "setmv" then
+        -- the value argument refers to the value of node b: by const reference (…v) or as an xvalue (…mv; the moved-from
+        -- value keeps its number)
+        match sel F v with
+        | some b =>
+          match getF b F with
+          | some tb =>
+            let head := s!"ok a={pa} b={pathStr b}"
+            if cmd == "setv" || cmd == "setmv" then runOp s (.setVal a tb.val) head
+            else if big then (s, "skip:big")
+            else runOp s (.insV a (if cmd == "pushbv" || cmd == "pushbmv" then .back else .front) tb.val) head
+          | none => (s, "bad-op")
+        | none => (s, "bad-op")
       else (s, "bad-op")
   | [cmd, a, x, y] =>
     match sel F a with
@@ -204,7 +338,16 @@ def handle (s : St) (toks : List String) : St × String :=
         match x.toNat?, y.toNat? with
         | some i, some k => if len == 0 then (s, "skip:empty") else
             let i := i % len
-            runOp s (.pop a (.at i) (k != 0 && !full)) s!"ok a={pa} i={i}"
+            runOp s (.pop a (.at i) (k != 0 && !full)) s!"ok a={pa} i={i} ret={retStr s a (.at i)}"
+        | _, _ => (s, "bad-op")
+      else if cmd == "insv" then
+        match x.toNat?, sel F y with
+        | some i, some b =>
+          match getF b F with
+          | some tb => if big then (s, "skip:big") else
+            let i := i % (len + 1)
+            runOp s (.insV a (.at i) tb.val) s!"ok a={pa} i={i} b={pathStr b}"
+          | none => (s, "bad-op")
         | _, _ => (s, "bad-op")
       else if cmd == "eraser" then
         match x.toNat?, y.toNat? with
@@ -234,9 +377,34 @@ def handle (s : St) (toks : List String) : St × String :=
         else if cmd == "depth" then (s, s!"q a={pa} depth={depth t}")
         else if cmd == "level" then (s, s!"q a={pa} level=" ++ excStr toString (level F t))
         else if cmd == "map" then (s, s!"q a={pa} map=" ++ dumpT none (mapT mapFn s.next t))
+        else if cmd == "front" then (s, s!"q a={pa} front={optVal (front t)}")
+        else if cmd == "back" then (s, s!"q a={pa} back={optVal (back t)}")
+        else if cmd == "kids" then (s, s!"q a={pa} " ++ kidsStr t)
+        else if cmd == "out" then (s, s!"q a={pa} out={outStr t}")
         else (s, "bad-op")
   | _ => (s, "bad-op")
 
-def main : IO Unit := Proto.runState St.init handle
+/-- the members that copy a value do not exist for a value type that can only be moved -/
+def copyCmds : List String := ["cpc", "cpa", "mkl", "pushbv", "pushfv", "insv", "setv"]
+
+/-- Two forests: the plain one (`object<int>`) and, for lines starting with `M`, the instantiation with a move-only value type.
+The model is the same for both (a moved-from value keeps its number); only the copying operations are unavailable. -/
+def handle2 (st : St × St) (toks : List String) : (St × St) × String :=
+  match toks with
+  | ["reset"] => ((St.init, St.init), "ok")
+  | "M" :: rest =>
+    match rest with
+    | ["reset"] => (st, "bad-op")
+    | ["obsall"] => (st, obsAll st.2)
+    | cmd :: _ =>
+      if copyCmds.contains cmd then (st, "skip:copy") else
+        let (s2, r) := handle st.2 rest
+        ((st.1, s2), r)
+    | [] => (st, "bad-op")
+  | _ =>
+    let (s1, r) := handle st.1 toks
+    ((s1, st.2), r)
+
+def main : IO Unit := Proto.runState (St.init, St.init) handle2
 
 end Fcppt.C09.Drv
